@@ -224,15 +224,39 @@ def gen_sync_job(ch, jid, label):
     return {"id": jid, "kind": "sync", "truth": truth, "files": files}
 
 
+def gen_gen_job(ch, jid, label):
+    """`gen` over a mapping of several classes: every entry of the mapping is one conversion, all made in one process in
+    mapping order.  The text emitted for one entry must not depend on which entries were converted before it."""
+    n = ch.int(label + ".n", 2, 4)
+    cnames = ch.sample(label + ".cnames", ["Alpha", "Beta", "Gamma", "Delta", "Epsilon"], n)
+    classes = []
+    for c in cnames:
+        desc = render.gen_desc(ch, "conservative", 1, 3, label + "." + c)
+        desc["returns"] = None
+        classes.append({"name": c, "src": render.render_class(desc, c)})
+    return {"id": jid, "kind": "gen", "classes": classes, "order": ch.shuffle(label + ".order", list(cnames)), "pick": ch.choice(label + ".pick", cnames),
+            "type": ch.weighted(label + ".type", [("class", 4), ("argparse", 1)]),
+            "decorators": ch.choice(label + ".dec", [None, ["dataclass"], ["dataclass", "final"]]),
+            "emit_call": ch.chance(label + ".call", 0.3), "name_tpl": ch.choice(label + ".tpl", ["{name}Config", "Gen{name}"])}
+
+
 def gen_wrap_job(ch, jid, label):
     """C18: a description whose summary / prose / types are shorter than, about equal to and much longer than typical widths."""
     n = ch.int(label + ".n", 1, 4)
     names = ch.sample(label + ".names", render.WORDS, n)
     words = ["alpha", "beta", "gamma", "delta", "epsilon", "zeta", "eta", "theta", "iota", "kappa", "lambda", "mu", "nu", "xi", "omicron", "pi", "rho", "sigma", "tau"]
 
+    # words that begin or end with punctuation (Sphinx roles, inline code, options, brackets): where the wrapper breaks
+    # the line decides which of them starts a line
+    markup = [":class:`tf.data.Dataset`", ":func:`evaluate`", ":py:mod:`os.path`", "`axis=0`", "--verbose", "*weights", "(optional)", "e.g.,", "[batch,", "dim]", "x:y", "1."]
+
     def prose(lab, lo, hi):
         k = ch.int(lab, lo, hi)
-        return " ".join(words[(i * 7 + k) % len(words)] for i in range(k))
+        ws = [words[(i * 7 + k) % len(words)] for i in range(k)]
+        if k >= 8 and ch.chance(lab + ".markup", 0.3):
+            for j in range(ch.int(lab + ".nmark", 1, 3)):
+                ws[ch.int(lab + ".markat%d" % j, 1, k - 1)] = ch.choice(lab + ".mark%d" % j, markup)
+        return " ".join(ws)
 
     params = []
     for i, nme in enumerate(names):
@@ -266,7 +290,7 @@ def gen_corpus(seed, prop, n):
         elif prop == "C18":
             kind = "wrap"
         else:
-            kind = ch.weighted(lab, [("fn", 5), ("cls", 2), ("hop", 2), ("hopgroup", 1.2), ("doc", 1), ("sync", 1), ("baddoc", 0.6), ("plaindoc", 1.5)])
+            kind = ch.weighted(lab, [("fn", 5), ("cls", 2), ("hop", 2), ("hopgroup", 1.2), ("doc", 1), ("sync", 1), ("baddoc", 0.6), ("plaindoc", 1.5), ("gen", 0.8)])
         if kind == "fn":
             jobs.append(gen_fn_job(ch, i, lab, allow_stale_docs=(prop == "C12")))
         elif kind == "cls":
@@ -283,6 +307,8 @@ def gen_corpus(seed, prop, n):
             jobs.append(gen_plain_docstring_job(ch, i, lab))
         elif kind == "sync":
             jobs.append(gen_sync_job(ch, i, lab))
+        elif kind == "gen":
+            jobs.append(gen_gen_job(ch, i, lab))
         else:
             jobs.append(gen_wrap_job(ch, i, lab))
     return jobs
@@ -379,10 +405,13 @@ def c07_check_function(job, ir, sig_names, sig_params):
                 if not ok:
                     out.append(("3-default", "%s: parsed default %r (%s), signature default %r (%s)" % (n, d, type(d).__name__, sp["default"], type(sp["default"]).__name__),
                                 {"how": "%s->%s" % (type(sp["default"]).__name__, type(d).__name__), "documented": _docmode(t), "style": t["style"],
-                                 "announce_in_doc": any(x.get("announces") for x in t["params"].values())}))
+                                 "announce_in_doc": any(x.get("announces") for x in t["params"].values()),
+                                 # a placeholder where the signature has a value is another failure than a wrong value
+                                 "parsed_placeholder": d in (None, "None", "```None```", "```(None)```")}))
         if not sp["has_default"] and "default" in p and p["default"] not in (None, "None", "```None```", "```(None)```") and not (t["params"].get(n) or {}).get("announces"):
             out.append(("3-default-invented", "%s: Python sees a required parameter, the parsed interface gives it the default %r" % (n, p["default"]),
-                        {"documented": _docmode(t), "style": t["style"], "announce_in_doc": any(x.get("announces") for x in t["params"].values())}))
+                        {"documented": _docmode(t), "style": t["style"], "announce_in_doc": any(x.get("announces") for x in t["params"].values()),
+                         "parsed_placeholder": False}))
         if sp["annotation"] is not None and not (t["params"].get(n) or {}).get("announces"):
             if _ws(p.get("typ")) != _ws(sp["annotation"]):
                 out.append(("3-annotation", "%s: parsed type %r, signature annotation %r" % (n, p.get("typ"), sp["annotation"]), {"documented": _docmode(t)}))
@@ -549,6 +578,8 @@ class Replica(object):
             return self.sync_job(job, occ)
         if k == "wrap":
             return self.wrap_job(job)
+        if k == "gen":
+            return self.gen_job(job, occ)
         raise HarnessError("unknown job kind %r" % k)
 
     def add_violation(self, prop, job, clause, detail, extra):
@@ -689,6 +720,47 @@ class Replica(object):
             with open(os.path.join(d, rel), "rt") as f:
                 files[rel] = f.read()
         return {"status": status, "files": files, "stdout": out.getvalue().replace(d, "<D>")}
+
+    def gen_job(self, job, occ):
+        """C12 inside one `gen` run: the picked entry converted on its own, and as part of the whole mapping in the given
+        order.  Returns the text emitted for it (compared across replicas as for every job); the two texts differing is
+        a violation on the spot."""
+        import contextlib
+        import io
+
+        d = os.path.join(self.tmpdir(), "gen_%d_%d" % (job["id"], occ))
+        os.makedirs(d, exist_ok=True)
+        texts = {}
+        sys.path.insert(0, d)
+        try:
+            for variant, order in (("alone", [job["pick"]]), ("mapping", job["order"])):
+                self.gen_n = getattr(self, "gen_n", 0) + 1
+                mod = "dtsim_genmap_%d_%d" % (os.getpid(), self.gen_n)
+                src = "from collections import OrderedDict\nfrom typing import *\n\nnp = None\n\n\n" + "\n\n".join(c["src"] for c in job["classes"])
+                src += "\n\nMAPPING = OrderedDict((%s,))\n" % ", ".join("(%r, %s)" % (c, c) for c in order)
+                with open(os.path.join(d, mod + ".py"), "wt") as f:
+                    f.write(src)
+                outp = os.path.join(d, "out_%s.py" % variant)
+                try:
+                    with contextlib.redirect_stdout(io.StringIO()), contextlib.redirect_stderr(io.StringIO()):
+                        self.ns.gen.gen(name_tpl=job["name_tpl"], input_mapping=mod + ".MAPPING", type_=job["type"], output_filename=outp,
+                                        emit_call=job["emit_call"], decorator_list=job["decorators"])
+                    with open(outp, "rt") as f:
+                        tree = ast.parse(f.read())
+                    want = job["name_tpl"].format(name=job["pick"])
+                    node = next((n for n in tree.body if getattr(n, "name", None) == want), None)
+                    texts[variant] = "<not emitted>" if node is None else ast.unparse(node)
+                except Exception as e:
+                    texts[variant] = "EXC:%s" % type(e).__name__
+                finally:
+                    sys.modules.pop(mod, None)
+        finally:
+            sys.path.remove(d)
+        if texts["alone"] != texts["mapping"]:
+            self.add_violation("C12", job, "G-gen-entry-depends-on-earlier-entries",
+                               "gen: the text emitted for %s differs between a mapping that holds it alone and the mapping %r" % (job["pick"], job["order"]),
+                               {"type": job["type"], "position": job["order"].index(job["pick"]), "decorators": bool(job["decorators"])})
+        return texts
 
     def wrap_job(self, job):
         """C18: every emitter with word_wrap on/off; parse both back; compare."""
@@ -1054,7 +1126,7 @@ def execute_replay_doc(doc):
 def minimise(prop, item):
     v = item["v"]
     job = item["job"]
-    if prop == "C12":
+    if prop == "C12" and "dv" in item:
         ra, rb = item["rep"], item["rep2"]
         # 1. does the single job alone differ under the two hash seeds?  (hash dependence)
         doc = {"property": prop, "engine": "replica", "expect_sig": v["sig"], "detail": v["detail"], "seed": item["seed"], "job_id": job["id"], "jobs": [job],
